@@ -1092,8 +1092,11 @@ func (s *sim) deliverHead() {
 		c.deliverCh <- delivery{req: r, res: abci.ToResponseCheckTx(*res)}
 	}
 	s.settle()
-	if s.mutexW > 0 {
+	if s.ver == 1 && s.mutexW > 0 {
 		e.Count("probe.handler_blocked_on_commit_lock")
+	} else {
+		// the response has been processed (v0 callbacks take no lock)
+		s.flushPendingRm()
 	}
 	s.absorb()
 	if r.kind == kRecheck {
@@ -1106,6 +1109,14 @@ func (s *sim) deliverHead() {
 		}
 		s.mu.Unlock()
 	}
+}
+
+func (s *sim) flushPendingRm() {
+	for _, i := range s.pendingRm {
+		s.lru.remove(i)
+		delete(s.comRem, i)
+	}
+	s.pendingRm = nil
 }
 
 // commitFinished: if the commit actor has returned, apply what Update certainly did to the
@@ -1152,12 +1163,8 @@ func (s *sim) commitFinished() bool {
 func (s *sim) absorb() {
 	finished := s.commitFinished()
 	if s.mutexW == 0 {
-		// every delivered response has been processed by now
-		for _, i := range s.pendingRm {
-			s.lru.remove(i)
-			delete(s.comRem, i)
-		}
-		s.pendingRm = nil
+		// a v1 response handler that had to wait for the lock has run by now (after the update)
+		s.flushPendingRm()
 	}
 	defer func() {
 		if finished {
